@@ -10,6 +10,13 @@ pub fn generate(scenario: &str, seed: u64, tier: &str) -> Value {
     match family {
         "proxy" => gen::gen_proxy(seed, prop, tier),
         "hostile" => crate::hostile::gen_c13(seed, tier),
+        "crash" => {
+            if prop == "C08-restart" {
+                crate::crash::gen_restart(seed)
+            } else {
+                crate::crash::gen_c08(seed, tier)
+            }
+        }
         "provision" => crate::provision::gen_c16(seed, tier),
         "keeper" => match prop {
             "C10" => crate::keeper::gen_c10(seed, tier),
@@ -62,7 +69,7 @@ pub async fn custom_step(run: &mut Run, _idx: usize, kind: &str, step: &Value) -
             true
         }
         other => {
-            if crate::hostile::custom_step(run, _idx, other, step).await || crate::provision::custom_step(run, _idx, other, step).await {
+            if crate::hostile::custom_step(run, _idx, other, step).await || crate::provision::custom_step(run, _idx, other, step).await || crate::crash::custom_step(run, _idx, other, step).await {
                 true
             } else {
                 crate::keeper::custom_step(run, _idx, other, step).await
@@ -77,6 +84,14 @@ pub async fn run(scenario: &str, seed: u64, plan: Value) -> Value {
     match family.as_str() {
         "proxy" => oracle::check_proxy(&mut run),
         "hostile" => crate::hostile::check_c13(&mut run),
+        "crash" => {
+            oracle::check_proxy(&mut run);
+            crate::crash::check_phase1(&mut run);
+        }
+        "crash_restart" => {
+            oracle::check_proxy(&mut run);
+            crate::crash::check_restart(&mut run);
+        }
         "provision" => crate::provision::check_c16(&mut run),
         "keeper" => {
             oracle::check_proxy(&mut run);
